@@ -24,7 +24,10 @@ class LazyFirstImputer(LazyImputer):
         for dv in itertools.product(*[list(range(dv.n_opts)) for dv in self._get_des_vars(existence)[::-1]]):
             # Validate this design vector and associated matrix
             vector = np.array(dv[::-1])
-            vector, matrix = self._decode(vector, existence)
+            results = self._decode(vector, existence)
+            if results is None:
+                continue
+            vector, matrix = results
             if validate(matrix):
                 self._impute_cache[cache_key] = vector, matrix
                 return vector, matrix
